@@ -50,6 +50,9 @@ impl RuleMaker for RegexRule {
         let expression = cleanup_unrecognized_escape_sequences(expression);
         let expression = escape_misused_repetition_quantifier(&expression);
         let expression = escape_misused_character_class(&expression);
+        // the expression has to be a regular expression on its own: `a)|(b` or `)\` are
+        // none, although they become one in between `^(?:` and `)$`
+        ByteRegex::new(&expression)?;
         let regex = ByteRegex::new(&format!("^(?:{})$", expression))?;
         Ok(Box::new(RegexRule(expression, regex)))
     }
